@@ -788,5 +788,5 @@ func js(v *model.Value) string {
 }
 
 func TestProp(t *testing.T) {
-	hx.RunProperty(t, hx.NewSub("laws", 8000, 60000, genCase, check))
+	hx.RunProperty(t, hx.NewSub("laws", 8000, 60000, genCase, check), hx.NewSub("context", 600, 5000, genCtx, checkCtx))
 }
